@@ -62,6 +62,7 @@ func (g *Gen) builtin(f *Frame, v ssa.Value, b *ssa.Builtin, cc *ssa.CallCommon,
 			g.emit("(assert (forall ((k Int)) (! (= (select %[1]s k) (ite (and (<= (s_off %[2]s) k) (< k (+ (s_off %[2]s) %[3]s))) (select (select %[4]s (s_ref %[5]s)) (+ (s_off %[5]s) (- k (s_off %[2]s)))) (select (select %[4]s (s_ref %[2]s)) k))) :pattern ((select %[1]s k)))))",
 				arr, dst.S, n, oldh, src.S)
 		}
+		g.frameWrite(comp, fmt.Sprintf("(s_ref %s)", dst.S))
 		g.set(f.st, comp, fmt.Sprintf("(store %s (s_ref %s) %s)", oldh, dst.S, arr))
 		set(n)
 	case "delete":
@@ -69,6 +70,7 @@ func (g *Gen) builtin(f *Frame, v ssa.Value, b *ssa.Builtin, cc *ssa.CallCommon,
 		mt := types.Unalias(cc.Args[0].Type()).Underlying().(*types.Map)
 		_, has, ln, _, _ := g.mapComps(mt)
 		hh, hl := g.get(f.st, has), g.get(f.st, ln)
+		g.frameWrite(has, m.S)
 		g.set(f.st, ln, fmt.Sprintf("(store %[1]s %[2]s (ite (select (select %[3]s %[2]s) %[4]s) (- (select %[1]s %[2]s) 1) (select %[1]s %[2]s)))", hl, m.S, hh, k.S))
 		g.set(f.st, has, fmt.Sprintf("(store %[1]s %[2]s (store (select %[1]s %[2]s) %[3]s false))", hh, m.S, k.S))
 	case "recover":
@@ -143,6 +145,7 @@ func (g *Gen) builtinAppend(f *Frame, v ssa.Value, cc *ssa.CallCommon, ins ssa.I
 			arr, s.S, newLen, src, base)
 		content = arr
 	}
+	g.frameWrite(comp, fmt.Sprintf("(s_ref %s)", res))
 	g.set(f.st, comp, fmt.Sprintf("(store %s (s_ref %s) %s)", oldh, res, content))
 	if v != nil {
 		g.setVal(f, v, res)
@@ -229,6 +232,7 @@ func (g *Gen) external(f *Frame, fn *ssa.Function, args []Arg, ins ssa.Instructi
 			n := g.fresh(comp + ".sorted")
 			g.declare(n, g.compSort[comp])
 			oldc := g.get(f.st, comp)
+			g.frameWrite(comp, fmt.Sprintf("(s_ref %s)", a(0)))
 			f.st.comp[comp] = n
 			g.emit("(assert (=> %s (forall ((r Int)) (! (=> (not (= r (s_ref %s))) (= (select %s r) (select %s r))) :pattern ((select %s r))))))", f.en, a(0), n, oldc, n)
 			g.trusted["sort: permutes the slice's elements (only the frame is modelled)"] = true
@@ -267,7 +271,9 @@ func (g *Gen) external(f *Frame, fn *ssa.Function, args []Arg, ins ssa.Instructi
 			if sig.Results().Len() > 1 {
 				un = fmt.Sprintf("ext$%s$%d", sanitize(name), k)
 			}
-			g.d.add("fn:"+un, fmt.Sprintf("(declare-fun %s (%s) %s)", un, strings.Join(sorts, " "), rsort))
+			if _, inSpec := g.specs.funcs[un]; !inSpec {
+				g.d.add("fn:"+un, fmt.Sprintf("(declare-fun %s (%s) %s)", un, strings.Join(sorts, " "), rsort))
+			}
 			app := un
 			if len(ts) > 0 {
 				app = fmt.Sprintf("(%s %s)", un, strings.Join(ts, " "))
